@@ -39,6 +39,11 @@ def replay_request(case):
     doc = c10.request_xml('authn', 'req1', c10.IDP_SSO['post'], env.ts(spc.now() - 5), sb.signature_template('req1', 'sha256', embed_cert=emb))
     doc = doc.replace('<saml:Issuer>%s</saml:Issuer>' % env.SP, '<saml:Issuer>%s</saml:Issuer>' % REQ_ISSUER[scn['issuer']], 1)
     doc = sb.sign(doc, sb.NS_SAMLP, 'AuthnRequest', 'req1', scn['signKey'])
+    if scn.get('priorEnc'):
+        try:
+            idp.metadata.certs(REQ_ISSUER[scn['issuer']], 'any', 'encryption')
+        except Exception:
+            pass
     log = []
     xmlsec_model.SINK = log
     obs = {'verdict': 'reject', 'exc': None, 'doc': doc}
@@ -76,6 +81,11 @@ def replay(case):
         doc = sb.sign(doc, sb.NS_SAML, 'Assertion', 'a1', scn['signKey'])
     else:
         doc = sb.sign(doc, sb.NS_SAMLP, 'Response', 'r1', scn['signKey'])
+    if scn.get('priorEnc'):
+        try:
+            sp.metadata.certs(issuer, 'any', 'encryption')
+        except Exception:
+            pass
     obs = spc.observe(sp, doc, env.BINDING_POST, {'id1': '/'})
     obs['doc'] = doc
     return obs
